@@ -24,7 +24,7 @@ Definition okrange (c : list (option (Q * Q)) * res (option (Q * Q))) : bool :=
 
 
 def q(x):
-    return g_Q(Fraction(x))
+    return vlib.g_Qf(x)
 
 
 def oq(r):
